@@ -36,10 +36,21 @@ class StmtMixin(object):
         pass
 
     def s_Import(self, st, s):
-        pass
+        import importlib
+        for a in s.names:
+            mod = importlib.import_module(a.name)
+            if a.asname:
+                st.vars[a.asname] = PyObj(mod)
+            else:
+                st.vars[a.name.split('.')[0]] = PyObj(importlib.import_module(a.name.split('.')[0]))
 
     def s_ImportFrom(self, st, s):
-        pass
+        import importlib
+        if s.level:
+            raise EngineError('relative import inside a function')
+        mod = importlib.import_module(s.module)
+        for a in s.names:
+            st.vars[a.asname or a.name] = self.lift(getattr(mod, a.name))
 
     def s_Expr(self, st, s):
         if isinstance(s.value, pyast.Constant):
